@@ -37,6 +37,8 @@ use tokio::{
 };
 use tracing::{Instrument, instrument};
 
+#[cfg(feature = "verif-hooks")]
+use crate::path::manager::verif_sched::{YieldCtx, note_point, yield_point};
 use crate::path::{
     PathStrategy,
     fetcher::traits::{PathFetchError, PathFetcher},
@@ -157,6 +159,9 @@ impl<F: PathFetcher> PathSet<F> {
 impl<F: PathFetcher> PathSet<F> {
     #[instrument(name = "path-set", skip(self), fields(src= ?self.src, dst= ?self.dst))]
     pub fn manage(mut self) -> (PathSetHandle, PathSetTask) {
+        #[cfg(feature = "verif-hooks")]
+        note_point(YieldCtx::set("e:spawn", self.src, self.dst, &self.shared));
+
         let cancel_token = tokio_util::sync::CancellationToken::new();
         let shared = self.shared.clone();
 
@@ -167,6 +172,9 @@ impl<F: PathFetcher> PathSet<F> {
                 let maintain = async {
                     // Update the managed path tuple on start
                     {
+                        #[cfg(feature = "verif-hooks")]
+                        yield_point(YieldCtx::set("w:start", self.src, self.dst, &self.shared))
+                            .await;
                         let Some(manager) = self.manager.upgrade() else {
                             return "manager dropped";
                         };
@@ -174,6 +182,9 @@ impl<F: PathFetcher> PathSet<F> {
                     }
 
                     loop {
+                        #[cfg(feature = "verif-hooks")]
+                        yield_point(YieldCtx::set("w:loop", self.src, self.dst, &self.shared))
+                            .await;
                         let now = SystemTime::now();
                         tracing::trace!("Managed paths task tick");
                         let next_tick = self.next_maintain(now);
@@ -182,10 +193,16 @@ impl<F: PathFetcher> PathSet<F> {
                             biased;
                             // Cancellation
                             () = cancel_token.cancelled() => {
+                                #[cfg(feature = "verif-hooks")]
+                                yield_point(YieldCtx::set("w:cancelled", self.src, self.dst, &self.shared))
+                                    .await;
                                 return "cancelled";
                             }
                             // Maintenance Tick
                             () = tokio::time::sleep(next_tick) => {
+                                #[cfg(feature = "verif-hooks")]
+                                yield_point(YieldCtx::set("w:tick", self.src, self.dst, &self.shared))
+                                    .await;
                                 let Some(manager) = self.manager.upgrade() else {
                                     return "manager dropped";
                                 };
@@ -196,6 +213,9 @@ impl<F: PathFetcher> PathSet<F> {
                             }
                             // Issue Notifications
                             issue = self.internal.issue_rx.recv() => {
+                                #[cfg(feature = "verif-hooks")]
+                                yield_point(YieldCtx::set("w:issue", self.src, self.dst, &self.shared))
+                                    .await;
                                 let Some(manager) = self.manager.upgrade() else {
                                     return "manager dropped";
                                 };
@@ -210,12 +230,30 @@ impl<F: PathFetcher> PathSet<F> {
 
                 let exit_reason = maintain.await;
 
+                #[cfg(feature = "verif-hooks")]
+                yield_point(YieldCtx::exit(
+                    "w:exit",
+                    self.src,
+                    self.dst,
+                    &self.shared,
+                    exit_reason,
+                ))
+                .await;
+
                 // If manager still exists, drop the PathSet entry
                 if let Some(mgr) = self.manager.upgrade() {
                     mgr.stop_managing_paths(self.src, self.dst);
                 }
 
                 // Ensure no waiting tasks remain
+                #[cfg(feature = "verif-hooks")]
+                yield_point(YieldCtx::set(
+                    "w:before-exit-notify",
+                    self.src,
+                    self.dst,
+                    &self.shared,
+                ))
+                .await;
                 let mut sync_guard = self.shared.sync.lock().unwrap();
                 sync_guard.ongoing_start = None;
                 sync_guard.initialized = true;
@@ -230,6 +268,9 @@ impl<F: PathFetcher> PathSet<F> {
                 self.shared.active_path.store(None);
 
                 tracing::info!(exit_reason, "Managed paths task exiting");
+
+                #[cfg(feature = "verif-hooks")]
+                note_point(YieldCtx::set("w:done", self.src, self.dst, &self.shared));
             }
         };
 
@@ -389,6 +430,15 @@ impl<F: PathFetcher> PathSet<F> {
     async fn fetch_and_update(&mut self, now: SystemTime, manager: &MultiPathManager<F>) {
         tracing::debug!("Refetching paths for src-dst pair");
 
+        #[cfg(feature = "verif-hooks")]
+        yield_point(YieldCtx::set(
+            "w:before-set-ongoing",
+            self.src,
+            self.dst,
+            &self.shared,
+        ))
+        .await;
+
         // Set update state
         {
             let mut notify_guard = self.shared.sync.lock().unwrap();
@@ -438,6 +488,14 @@ impl<F: PathFetcher> PathSet<F> {
                     .expect("should have a path available, as new paths were ingested");
 
                 // Reset error state
+                #[cfg(feature = "verif-hooks")]
+                yield_point(YieldCtx::set(
+                    "w:before-set-err",
+                    self.src,
+                    self.dst,
+                    &self.shared,
+                ))
+                .await;
                 self.shared.sync.lock().unwrap().current_error = None;
                 self.internal.failed_attempts = 0;
                 // Update next refetch time
@@ -467,15 +525,39 @@ impl<F: PathFetcher> PathSet<F> {
                     "Failed to fetch new paths"
                 );
 
+                #[cfg(feature = "verif-hooks")]
+                yield_point(YieldCtx::set(
+                    "w:before-set-err",
+                    self.src,
+                    self.dst,
+                    &self.shared,
+                ))
+                .await;
                 self.shared.sync.lock().unwrap().current_error = Some(Arc::new(e));
             }
         }
 
         // Always update ranking, and possibly active path
+        #[cfg(feature = "verif-hooks")]
+        yield_point(YieldCtx::set(
+            "w:before-publish",
+            self.src,
+            self.dst,
+            &self.shared,
+        ))
+        .await;
         self.rerank(now, manager);
         self.maybe_update_active_path(now, manager);
 
         // Set update state
+        #[cfg(feature = "verif-hooks")]
+        yield_point(YieldCtx::set(
+            "w:before-clear",
+            self.src,
+            self.dst,
+            &self.shared,
+        ))
+        .await;
         {
             let mut notify_guard = self.shared.sync.lock().unwrap();
             notify_guard.ongoing_start = None;
@@ -483,6 +565,14 @@ impl<F: PathFetcher> PathSet<F> {
             notify_guard.completed_notify.notify_waiters();
         }
 
+        #[cfg(feature = "verif-hooks")]
+        yield_point(YieldCtx::set(
+            "w:after-clear",
+            self.src,
+            self.dst,
+            &self.shared,
+        ))
+        .await;
         tracing::debug!("Completed path refetch and update");
     }
 
@@ -918,6 +1008,8 @@ impl PathSetHandle {
     pub async fn active_path(
         &self,
     ) -> arc_swap::Guard<Option<Arc<(ScionPath, DpPathFingerprint)>>> {
+        #[cfg(feature = "verif-hooks")]
+        yield_point(YieldCtx::handle("h:before-load", self)).await;
         self.shared
             .was_used_in_idle_period
             .store(true, std::sync::atomic::Ordering::Relaxed);
@@ -931,11 +1023,15 @@ impl PathSetHandle {
 
         self.await_ongoing_update().await;
 
+        #[cfg(feature = "verif-hooks")]
+        yield_point(YieldCtx::handle("h:before-reload", self)).await;
         self.shared.active_path.load()
     }
 
     /// Awaits ongoing path update if there is one.
     pub async fn await_ongoing_update(&self) {
+        #[cfg(feature = "verif-hooks")]
+        yield_point(YieldCtx::handle("h:before-lock-check", self)).await;
         let finish_notification = {
             let notify_guard = self.shared.sync.lock().unwrap();
 
@@ -947,6 +1043,8 @@ impl PathSetHandle {
             notify_guard.completed_notify.clone().notified_owned()
         };
 
+        #[cfg(feature = "verif-hooks")]
+        yield_point(YieldCtx::handle("h:registered", self)).await;
         finish_notification.await;
     }
 
